@@ -302,9 +302,11 @@ def step (fields : List String) : String :=
                              geminiFooter := decOpt gemFoot, spartanFooter := decOpt spaFoot }
        let sf : StatFn := statAt R
        " ".intercalate ((requests.splitOn " ").map fun r =>
-         match r.splitOn ";" with
+         -- an optional fourth field says whether `urlparse` accepts the line (an oracle of the model: default yes)
+         let fields := r.splitOn ";"
+         match fields.take 3 with
          | [tls, line, rest] =>
-           (match answer c sf Generated.queryPrefix ⟨decBool tls, decStr line, decList rest⟩ with
+           (match answer c sf Generated.queryPrefix ⟨decBool tls, decStr line, decList rest⟩ (fields[3]? != some "I") with
             | none => "NONE"
             | some ps => if ps.isEmpty then "EMPTY" else ";".intercalate (ps.map fun p =>
                 match p with
